@@ -397,7 +397,7 @@ resolve_encoding_stub = Fn(FIN, "resolve_encoding", slot="resolver", mode="stub"
     C("none_in_last_pass_is_loud", "res is Ok && res->Ok_0 is None && ctx.is_last_iteration ==> final(report).msgs() > old(report).msgs()"),
     C("none_while_guessing_is_clean", "res is Ok && res->Ok_0 is None && !ctx.is_last_iteration ==> final(report).msgs() == old(report).msgs() && final(report).errors() == old(report).errors()"),
     C("some_is_nonempty", "res is Ok && res->Ok_0 is Some ==> res->Ok_0->0@.len() >= 1"),
-    C("chosen_recorded", "res is Ok && res->Ok_0 is Some ==> chosen_encoding(final(report)) == *res->Ok_0->0@[0].1"),
+    C("chosen_recorded", "res is Ok && res->Ok_0 is Some ==> chosen_encoding(final(report)) == *res->Ok_0->0@[0].1", stub_only=True),
     C("parents_balanced", "final(report).parents() == old(report).parents()"),
 ])
 INS = "final(defs).instructions.defs@[(ast_instr.item_ref->0).0 as int]->0"
